@@ -194,6 +194,19 @@ class Expand(Simple, DisjointUnionStrategy[WC, W]):
         return tuple(w if i == idx else None for i in range(len(children)))
 
 
+class ExpandMinimal(Expand):
+    """Expand, but only for classes whose pattern set is minimal (no pattern contains another): a class with a redundant
+    pattern then has no rule of its own and can only be derived from the minimal class (RedundantParentFactory)."""
+
+    def decomposition_function(self, c):
+        if any(q != p and q in p for p in c.patterns for q in c.patterns):
+            return None
+        return Expand.decomposition_function(self, c)
+
+    def formal_step(self):
+        return "expand by next letter (minimal pattern sets only)"
+
+
 def safe_cut(c):
     """largest s such that no occurrence of a pattern in a word of C(prefix) can start before s"""
     p = c.prefix
@@ -585,6 +598,31 @@ class RenameStats(Simple, DisjointUnionStrategy[WC, W]):
         return cls(**d)
 
 
+class EmptyThenRename(RenameStats):
+    """C(p) = C(p avoiding also the letter p[0]) + C(p) with renamed statistics: the first child is empty (its prefix
+    contains a forbidden letter) and carries no statistic, the only non-empty child is the *second* one and its
+    parameter map is a genuine renaming - so the equivalence forms of this rule and of its reverse have to pick the
+    map of the right child."""
+
+    def decomposition_function(self, c):
+        kids = RenameStats.decomposition_function(self, c)
+        if kids is None or not c.prefix or c.just_prefix:
+            return None
+        return (c.with_(patterns=tuple(c.patterns) + (c.prefix[0],), stats=()),) + kids
+
+    def extra_parameters(self, c, children=None):
+        return ({}, self._renamed(c))
+
+    def formal_step(self):
+        return "words without the first letter of the prefix (none), or the rest with renamed statistics"
+
+    def forward_map(self, c, w, children=None):
+        return (None, w)
+
+    def __repr__(self):
+        return "EmptyThenRename()"
+
+
 class RemoveFrontRename(RemoveFront):
     """RemoveFront whose second factor carries the statistics under swapped names (k1 <-> k2): the child's names
     overlap the parent's in a crossed way."""
@@ -685,6 +723,22 @@ class RedundantParentFactory(StrategyFactory[WC]):
     @classmethod
     def from_dict(cls, d):
         return cls()
+
+
+class RedundantParentExpandFactory(RedundantParentFactory):
+    """RedundantParentFactory that also yields the ready expansion rule of the minimal class C' (another foreign-parent
+    rule): C' itself is never queued, so this is its only rule; its children are queued and expanded as usual."""
+
+    def __call__(self, c):
+        for rule in RedundantParentFactory.__call__(self, c):
+            yield rule
+            yield Expand()(rule.comb_class)
+
+    def __str__(self):
+        return "redundant parent + expansion factory"
+
+    def __repr__(self):
+        return "RedundantParentExpandFactory()"
 
 
 class BruteVerified(VerificationStrategy[WC, W]):
@@ -916,6 +970,30 @@ class PrefixVerified(VerificationStrategy[WC, W]):
         return "PrefixVerified(k=%d)" % self.k
 
 
+class PrefixVerifiedNested(PrefixVerified):
+    """Verifies the classes whose prefix has exactly k letters; the pack it supplies itself contains a pack-supplying
+    verification strategy (for prefixes of >= inner letters, inner > k), so the expansion of a verified class brings in
+    verified classes that the original specification never contained."""
+
+    def __init__(self, k=1, inner=3, ignore_parent=True):
+        self.inner = inner
+        super().__init__(k, ignore_parent=ignore_parent)
+
+    def verified(self, c):
+        return not c.just_prefix and not c.is_empty() and len(c.prefix) == self.k
+
+    def pack(self, c):
+        return make_pack(prefix_verified=self.inner, no_initial=True, name="nested")
+
+    def to_jsonable(self):
+        d = super().to_jsonable()
+        d["inner"] = self.inner
+        return d
+
+    def __repr__(self):
+        return "PrefixVerifiedNested(k=%d, inner=%d)" % (self.k, self.inner)
+
+
 class PrefixVerifiedRev(PrefixVerified):
     """Like PrefixVerified, but the pack it supplies reaches the class only through a reverse rule
     (C(p.x) is obtained from the rule of C(p) by complement), so expanding needs reverse rules."""
@@ -990,7 +1068,7 @@ def basic_pack(**kw):
 def make_pack(sym=False, inf=False, merge=False, iterative=False, factory=False, parent_factory=False,
               prefix_verified=None, prefix_verified_rev=None, empty_prefix_verified=False, two_sets=False, no_initial=False, name=None, expand=True,
               split=False, oneway=False, lazy=False, trim=False, rename=False, mono=False, fac2=False, cycle=False,
-              redundant_parent=False, brute=None, trimonly=False, hidden=False, trimrename=False, pfactory2=False, noinf=False):
+              redundant_parent=False, brute=None, trimonly=False, hidden=False, trimrename=False, pfactory2=False, noinf=False, redpar=False, prefix_verified_nested=None):
     inferral = ([MinimizePatterns()] if inf else []) + ([MergeStats()] if merge else []) + ([RenameStats()] if rename else [])
     exp = [ExpandFactory()] if factory else [Expand()]
     if parent_factory:
@@ -1011,6 +1089,8 @@ def make_pack(sym=False, inf=False, merge=False, iterative=False, factory=False,
         exp = [RemoveThenExpandFactory()]
     if redundant_parent:
         exp = [RedundantParentFactory()]
+    if redpar:
+        exp = [RedundantParentExpandFactory(), ExpandMinimal()]
     expansion = [exp]
     if two_sets:
         expansion = [[RemoveFront()], exp] if no_initial else [exp, [ExpandFactory()]]
@@ -1019,6 +1099,8 @@ def make_pack(sym=False, inf=False, merge=False, iterative=False, factory=False,
         ver.append(PrefixVerified(prefix_verified))
     if prefix_verified_rev is not None:
         ver.append(PrefixVerifiedRev(prefix_verified_rev))
+    if prefix_verified_nested is not None:
+        ver.append(PrefixVerifiedNested(*prefix_verified_nested))
     if empty_prefix_verified:
         ver.append(EmptyPrefixVerified())
     if brute is not None:
